@@ -1,11 +1,18 @@
 #!/bin/sh
 # re-runs, for every seeded change under /verif/seeded, the quick check of the property it breaks (scratch worktree, VERIF_REPO)
+# usage: tools/seedall.sh [parallel jobs, default 1]
 cd "$(dirname "$0")/.."
-for d in seeded/*/; do
-  id=$(basename $d)
+one() {
+  d=$1; id=$(basename $d)
   p=$(python3 -c "import json;print(json.load(open('$d/meta.json'))['breaks'])")
-  python3 tools/seedcheck.py $d $id $p --checks-only 2>/dev/null | python3 -c "
+  python3 tools/seedcheck.py $d $id $p --checks-only 2>&1 | python3 -c "
 import sys,json
-t=sys.stdin.read(); t=t[t.index('{'):]; d=json.loads(t)
-print(d['id'], {k:(v['verdict'],v.get('caught_by','')) for k,v in d['checks'].items()})"
-done
+t=sys.stdin.read()
+try:
+    t=t[t.index('{'):]; d=json.loads(t)
+    print(d['id'], {k:(v['verdict'],v.get('caught_by','')) for k,v in d['checks'].items()})
+except Exception as e:
+    print('$id', 'ERROR', t.strip().splitlines()[-1][:200] if t.strip() else e)"
+}
+if [ "$1" = "--one" ]; then one $2; exit; fi
+ls -d seeded/*/ | xargs -P ${1:-1} -n 1 sh tools/seedall.sh --one
